@@ -170,7 +170,8 @@ def ortho_rules(run, db):
            if p.outcome == 'return']
     n = 0
     for p in res:
-        if p.cond_is('Q == 1 and out_shape is None', True):
+        if isinstance(p.value, Shaped) and p.value.label == 'array' and not [e for e in p.events if e['kind'] in ('store', 'inplace')]:
+            # the identity path (Q == 1, no shape asked for), however the test is nested
             run.check(isinstance(p.value, Shaped) and p.value.label == 'array', 'C02.pad', f.qual, 'Q == 1', 'Q=1 returns the input', 'Q=1 path returns %r' % (p.value,), f.loc())
             continue
         n += 1
